@@ -1,1 +1,152 @@
-//! (filled in with the xargs properties)
+//! Running the real xargs binary with the recorder as its command.
+use crate::util::*;
+use serde_json::Value;
+use std::io::Write;
+use std::os::unix::process::ExitStatusExt;
+use std::path::{Path, PathBuf};
+use std::process::{Command, Stdio};
+
+pub struct XRun {
+    pub execs: Vec<Vec<Vec<u8>>>, // argv[1..] of every recorder invocation
+    pub cwds: Vec<Vec<u8>>,
+    pub sums: Vec<Value>, // in sum mode
+    pub exit: i64,        // exit status, 1000+signal, or -1 for a hang
+    pub stderr: Vec<u8>,
+}
+
+pub struct XOpts<'a> {
+    pub opts: Vec<String>,       // xargs options
+    pub cmd: Option<PathBuf>,    // command (default: the recorder); None = recorder
+    pub init: Vec<Vec<u8>>,      // initial arguments
+    pub stdin: &'a [u8],
+    pub script: Option<Vec<i64>>,
+    pub sum_mode: bool,
+    pub env: Vec<(String, String)>,
+    pub clear_env: bool,
+    pub rlimit_stack: Option<u64>,
+    pub timeout_s: u64,
+}
+
+impl<'a> XOpts<'a> {
+    pub fn new(stdin: &'a [u8]) -> Self {
+        XOpts {
+            opts: vec![],
+            cmd: None,
+            init: vec![],
+            stdin,
+            script: None,
+            sum_mode: false,
+            env: vec![],
+            clear_env: false,
+            rlimit_stack: None,
+            timeout_s: 60,
+        }
+    }
+}
+
+pub fn read_log(path: &Path) -> (Vec<Vec<Vec<u8>>>, Vec<Vec<u8>>, Vec<Value>) {
+    let mut execs = vec![];
+    let mut cwds = vec![];
+    let mut sums = vec![];
+    if let Ok(txt) = std::fs::read_to_string(path) {
+        for line in txt.lines() {
+            if let Ok(v) = serde_json::from_str::<Value>(line) {
+                if let Some(a) = v.get("a") {
+                    execs.push(a.as_array().unwrap().iter().map(|x| unhex(x.as_str().unwrap_or(""))).collect());
+                } else {
+                    sums.push(v.clone());
+                }
+                cwds.push(unhex(v["cwd"].as_str().unwrap_or("")));
+            }
+        }
+    }
+    (execs, cwds, sums)
+}
+
+pub fn run_xargs(sb: &Sandbox, o: &XOpts) -> XRun {
+    use std::os::unix::ffi::OsStrExt;
+    use std::os::unix::process::CommandExt;
+    let log = sb.path().join("vrec.log");
+    let _ = std::fs::remove_file(&log);
+    let inp = sb.path().join("stdin.bin");
+    std::fs::File::create(&inp).unwrap().write_all(o.stdin).unwrap();
+    let mut c = Command::new(bin_dir().join("xargs"));
+    for a in &o.opts {
+        c.arg(a);
+    }
+    match &o.cmd {
+        None => c.arg(vrec_path()),
+        Some(p) => c.arg(p),
+    };
+    for a in &o.init {
+        c.arg(std::ffi::OsStr::from_bytes(a));
+    }
+    if o.clear_env {
+        c.env_clear();
+    }
+    c.env("VREC_LOG", &log);
+    if o.sum_mode {
+        c.env("VREC_MODE", "sum");
+    } else {
+        c.env_remove("VREC_MODE");
+    }
+    if let Some(s) = &o.script {
+        let sp = sb.path().join("script.json");
+        std::fs::write(&sp, serde_json::to_string(s).unwrap()).unwrap();
+        c.env("VREC_SCRIPT", &sp);
+    } else {
+        c.env_remove("VREC_SCRIPT");
+    }
+    for (k, v) in &o.env {
+        c.env(k, v);
+    }
+    c.stdin(Stdio::from(std::fs::File::open(&inp).unwrap()));
+    c.stdout(Stdio::null());
+    let errf = sb.path().join("stderr.txt");
+    c.stderr(Stdio::from(std::fs::File::create(&errf).unwrap()));
+    c.current_dir(sb.path());
+    if let Some(lim) = o.rlimit_stack {
+        unsafe {
+            c.pre_exec(move || {
+                let r = libc::rlimit { rlim_cur: lim, rlim_max: lim };
+                libc::setrlimit(libc::RLIMIT_STACK, &r);
+                Ok(())
+            });
+        }
+    }
+    let mut child = c.spawn().expect("spawn xargs");
+    let t0 = std::time::Instant::now();
+    let exit;
+    loop {
+        match child.try_wait() {
+            Ok(Some(st)) => {
+                exit = match st.code() {
+                    Some(c) => c as i64,
+                    None => 1000 + st.signal().unwrap_or(0) as i64,
+                };
+                break;
+            }
+            Ok(None) => {
+                if t0.elapsed().as_secs() > o.timeout_s {
+                    let _ = child.kill();
+                    let _ = child.wait();
+                    exit = -1;
+                    break;
+                }
+                std::thread::sleep(std::time::Duration::from_micros(300));
+            }
+            Err(_) => {
+                exit = -2;
+                break;
+            }
+        }
+    }
+    let (execs, cwds, sums) = read_log(&log);
+    let stderr = std::fs::read(&errf).unwrap_or_default();
+    XRun { execs, cwds, sums, exit, stderr }
+}
+
+/// A panic of the code under test shows up as exit status 101 with a panic message.
+pub fn looks_like_panic(r: &XRun) -> bool {
+    r.exit == 101 || r.exit == 1000 + 6 || String::from_utf8_lossy(&r.stderr).contains("panicked at")
+}
